@@ -156,7 +156,7 @@ class TapeRecorder(object):
         metadata[TapeRecorder.INCOMPLETE_RECORDING] = incomplete
         if post_operation_metadata_extractor:
             try:
-                metadata.update(post_operation_metadata_extractor())
+                metadata.update(dict(post_operation_metadata_extractor()))
             except Exception:
                 _logger.exception(u'Exception caught while extractor post operation metadata for recording id {}, '
                                   u'skipping metadata extraction'.format(recording.id))
